@@ -143,6 +143,8 @@ class Channel(object):
 
   def offer(self, frame):
     """Deliver `frame` as packet-in data; returns the handler's record."""
+    if len(frame) > 65517:
+      raise Machinery("C15 env: %d bytes do not fit into one OFPT_PACKET_IN" % len(frame))
     del self.got[:]
     n = len(self.sock.out)
     try:
